@@ -368,8 +368,9 @@ def byte_moduli(no):
 def prepare(tier, N):
     import pri
     del _cases[:]
-    for cfg in ('rel', 'w32'):
-        W = 64 if cfg == 'rel' else 32; wb = W // 8
+    import c05_calls as CC
+    for cfg in CC.CFGS:
+        W = CC.wbits(cfg); wb = W // 8
         for n in range(1, N + 1):
             for no in sorted(set(x for x in (wb * (n - 1) + 1, wb * n - 1, wb * n) if x > 0)):
                 full = no == wb * n
